@@ -9,6 +9,10 @@ NOTE = ("Trusted base: Coq 8.16.1 kernel; no axioms (Print Assumptions of every 
         "and rustc are modelled, not verified. See DESIGN.md section 5.")
 TECH = 'Coq proof over hand-written model + checked correspondence (token equality, model-free oracle)'
 CLAIMED = {
+ 'C01': ("Full: for every struct/enum, every environment (no law assumed of field impls, key expressions or by functions) and every pair of values, the meaning of the generated eq / partial_cmp / cmp bodies equals the documented rule sp_* (ignored fields skipped; per-field comparator = first attribute, most specific first among those affecting the trait, carrying by/key, converted to the trait at hand, else the field type's own; reverse; first non-equal field decides; different variants by declaration position), and the rule reads only attributes that are parsed identically under any co-derived trait set. Tied to the code by L1 on bodies; real compiled impls checked against a Python reference of the rule on full cartesian value products.", 'DESIGN.md §3 C01'),
+ 'C05': ("Full: theorem that the fields of a struct/variant are accepted for a trait iff none is rejected by the documented rule (custom behaviour elsewhere with default here; ignore for only some traits; partial_ord(reverse) with Ord), that misplaced ignore/reverse/key/by on types and variants is refused and nothing else is, that refusal is an error message never a panic, and that each requested trait's outcome depends on its own entry only. L1 and the model-free oracle are EXHAUSTIVE over the 3136 x 5 x 3 shapes x 2 entry points grid.", 'DESIGN.md §3 C05'),
+ 'C06': ("Full at the level of hash() calls: the sequence of Hash::hash calls of the derived impl equals the documented feed (non-ignored fields in order; hash.by > hash.key > eq.key > ord.key > field) for every value; equal effective inputs give identical feeds and the feed determines every effective input. Byte-level claims additionally rest on core::hash (trusted). Tied by L1 on Hash bodies; real impls observed through a recording Hasher against a Python reference.", 'DESIGN.md §3 C06'),
+ 'C17': ("Full on the obligation set: the hidden checker of the Eq impl creates exactly one `T: Eq` obligation per compared component (the field itself, or the value of its key expression; ignored fields and fields compared with by are exempt), for every variant. That rustc enforces an obligation is trusted and observed: exhaustive accept/reject grid compiled against the real proc-macro.", 'DESIGN.md §3 C17'),
  'C03': ("Full for the where-clause: with every bound level absent the documented resolution collapses (theorem) to the declared predicates plus exactly the types of the used fields that mention a type/const parameter - never a bare parameter, never omitting a used one; which fields are used per trait is the plan of SpecBound.v proved equal to the generator's behaviour (C04 theorems). Tied to the code by L1 on headers for every trait and reference form, checked model-free against a Python reference of the documentation rule. That rustc accepts the impl is sampled by C20, not proved.", 'DESIGN.md §3 C03'),
  'C04': ("Full: for every builder (operators, Clone, Copy, Debug, Default, the five comparison traits, Deref; struct and enum) and every assignment of bound(...) to the up-to-nine levels, the emitted bounded types and predicates equal the documented resolution spec_where (priority order; predicates verbatim; types as Type: Trait; continue only past absent or `..` levels; stops local to a variant/field; field type only at the end of the chain if used and mentioning a parameter; comparison helper attributes most specific first at every placement; declared where-clause always kept). Tied to the code by L1 on headers; checked model-free against a Python reference with one marker predicate per level.", 'DESIGN.md §3 C04'),
  'C14': ("Full: theorems for every item and trait list (re-emitted item = input minus exactly the attributes the documentation assigns to the requested traits, at type/variant/field positions; on failure the item is still emitted; foreign content intact and in order in every case; derive macro re-emits nothing). Tied to the code by L1 on the ITEM part over thousands of generated items and checked model-free by a token-level reference.", 'DESIGN.md §3 C14'),
